@@ -1,6 +1,7 @@
 import MaddyVerif.Model.Errors
 import MaddyVerif.Model.ErrorsNextHop
 import MaddyVerif.Model.ErrorsQueueHist
+import MaddyVerif.Model.ErrorsOwn
 import Driver.Util
 namespace Driver.C16
 open MaddyVerif.Errors Driver
@@ -228,6 +229,62 @@ def parseStoredList : List (List String) → Option (List Reply)
       let l ← parseStoredList r
       pure (⟨c, some en, .text m⟩ :: l)
 
+
+/-! ### failures of maddy's own limits, SASL authentication (round 7) -/
+
+/-- the harness prints the two constant texts by name wherever they come from -/
+def canonConst (r : Reply) : Reply :=
+  match r.msg with
+  | .text m => if m == highLoadMsg then { r with msg := .highLoad } else if m == genericText then { r with msg := .generic } else r
+  | _ => r
+
+def showGoodC (e : Err) : String :=
+  showErr e ++ " => " ++ showReply (canonConst (wrapErr false e)) ++ " | " ++ showReply (canonConst (wrapErr true e)) ++ " | " ++
+    showStored (canonConst (toSMTPErr e)) ++ " retry=" ++ b01 (queueRetries e)
+
+def parseLimVia : String → Option LimVia
+  | "take" => some .raw
+  | "rcpt" => some .raw
+  | "start" => some .start
+  | _ => none
+
+def parseLimEnd : String → Option LimEnd
+  | "T0" => some .timeout
+  | "T1" => some .timeout
+  | "C" => some .cancelled
+  | "F" => some .tableFull
+  | _ => none
+
+def parseMech (mech id : String) : Option Mech :=
+  match mech with
+  | "plain" => some (.plain (id == "d"))
+  | "login" => some .login
+  | "login0" => some .loginDisabled
+  | "other" => some .other
+  | _ => none
+
+def parseAuthPre : List String → Option (AuthPre × List String)
+  | "-" :: r => some (.none, r)
+  | "m" :: r => some (.mapHit, r)
+  | "u" :: r => some (.mapMiss, r)
+  | "M" :: r => do let (e, r') ← parseErr r; pure (.mapErr e, r')
+  | "Z" :: r => do let (e, r') ← parseErr r; pure (.normErr e, r')
+  | _ => none
+
+def parseProv : List String → Option (Option Err)
+  | ["ok"] => some none
+  | toks =>
+    match parseErr toks with
+    | some (e, []) => some (some e)
+    | _ => none
+
+def showAuthReply (r : AuthReply) : String :=
+  let t := match r.text with
+    | .succeeded => "ok"
+    | .invalidCred => "invalid"
+    | .unsupportedMech => "unsupported"
+  s!"{r.code} {r.ench.cls}.{r.ench.subj}.{r.ench.det} {t}"
+
 def handle : List String → String
   | "wrap" :: mang :: rest =>
     match parseErr rest with
@@ -309,6 +366,19 @@ def handle : List String → String
         " | ".intercalate (go 1 ls)
       | none => "generr:statusMissing"
     | none => "bad-op"
+  | ["lim", _cfg, via, scope, mode] =>
+    if scope == "none" then "ok" else
+    match parseLimVia via, parseLimEnd mode with
+    | some v, some e => showGoodC (limFailure v e)
+    | _, _ => "bad-op"
+  | ["epfull", _scope, utf8, _defer] => showReply (canonConst (wrapErr (utf8 != "1") (limErr .tableFull)))
+  | "auth" :: mech :: _ir :: id :: rest =>
+    match parseMech mech id, parseAuthPre rest with
+    | some m, some (pre, r) =>
+      match (splitSemi r).mapM parseProv with
+      | some provs => if provs.isEmpty then "bad-op" else showAuthReply (authReply (createSASL m pre provs))
+      | none => "bad-op"
+    | _, _ => "bad-op"
   | ["milter", code] =>
     match code.toNat? with
     | some c => let r := milterReply c; s!"{r.1} {r.2.cls}.{r.2.subj}.{r.2.det}"
